@@ -1,6 +1,7 @@
 package govc
 
 import (
+	"math/big"
 	"bytes"
 	"context"
 	"fmt"
@@ -87,6 +88,11 @@ func (p *Program) buildQuery(o *Obligation, wantModel bool) string {
 				}
 			}
 		}
+	}
+	// every string has a length in [0, 2^62] (address space)
+	if used["slen"] {
+		sv := mkVar("s!len", SStr)
+		extra = append(extra, mkForall([]*Term{sv}, mkAnd(mkLe(tZero, strLen(sv)), mkLe(strLen(sv), mkBig(new(big.Int).Lsh(big.NewInt(1), 62)))), strLen(sv)))
 	}
 	// string literals
 	var lits []string
